@@ -3,6 +3,9 @@
 extern crate core;
 
 use crate::fsm::Fsm;
+#[cfg(rfsm_verif)]
+use crate::verif_seams::collections::HashMap;
+#[cfg(not(rfsm_verif))]
 use std::collections::HashMap;
 use std::fmt::{Display, Formatter};
 #[cfg(feature = "serializer")]
